@@ -5,6 +5,7 @@ from vf.lazy import libx, common
 from vf.monitors import algos
 
 PROP = "C08"
+TECHNIQUE = ('runtime monitoring of BioConsert (JIT, bounds-checked JIT, interpreted kernels with anchor coverage and strict-index arrays): every single-element move of every returned ranking priced by the reference table')
 RULE = ("cases = dataset (D2-D4, D9, D10, D11, Markov-like perturbations; several multi-element buckets; n<=10, few n=16) "
         "x scheme (S1-S3, scaled, and S8 threshold-scale penalties k*2^-12..k*2^-8 crossing the 0.001 threshold from both "
         "sides) x configuration (BioConsert without starters, with [Borda] / [Copeland,KwikSort] / [PickAPerm], BioCo), all "
